@@ -178,6 +178,13 @@ func (c *Crew) SetMachine(ctx context.Context, mid string, src *crew.SpecSource,
 		}
 
 		c.Machines[mid] = m
+
+		// Report the new machine with its initial state.  It
+		// might replace a machine deleted since the last report:
+		// that deletion is superseded.
+		ch := c.change(mid)
+		ch.Deleted = false
+		ch.State = m.State
 	} else if state != nil {
 		// Replace the state of the existing machine (the
 		// change is reported below, so it has to happen).
